@@ -1,3 +1,4 @@
+//go:build verif
 // +build verif
 
 package raft
@@ -17,9 +18,9 @@ import (
 
 type simCheckSpec struct {
 	Prop      string
-	Oracles   []string                      // oracles whose findings are violations of this property
+	Oracles   []string                         // oracles whose findings are violations of this property
 	Scenarios func(tier string) []*simScenario // scenarios (with bounds) per tier
-	Budget    func(tier string) time.Duration // wall-clock budget for the whole check
+	Budget    func(tier string) time.Duration  // wall-clock budget for the whole check
 	Note      string
 	Assume    []string
 	// Vacuity: statistics that must be non-zero for the run to count as having reached its subject
